@@ -140,7 +140,11 @@ static void deliver(const std::string& opts, const std::string& pos, const TC& t
     }
     if (tGo < 0 || tBest < 0) return;
     // nominal polling interval: the clock is tested when the node countdown (1000) expires at the next full-width node; factor 2 for the quiescence subtree in between
-    long long I = 2 * 1000 * RATE_US + 1000;
+    // With MaxNPS the engine tests the clock every MaxNPS/100 nodes and sleeps to hold the node rate, so one polling interval lasts
+    // (MaxNPS/100 nodes) x (1/MaxNPS s per node) = 10 ms of mostly slept time on top of the work itself
+    long long nodesBetween = 1000, perNodeUs = RATE_US;
+    { size_t mp = opts.find("MaxNPS value "); if (mp != std::string::npos) { long long nps = atoll(opts.c_str() + mp + 13); if (nps > 0) { nodesBetween = std::max(1LL, std::min(1000LL, nps / 100)); perNodeUs = RATE_US + 1000000 / nps; } } }
+    long long I = 2 * nodesBetween * perNodeUs + 1000;
     long long elapsed = tBest - tGo;
     R.maxOf("max_elapsed_us", elapsed);
     bool endedByLimit = false;
@@ -177,8 +181,8 @@ static void delivery(bool thorough) {
         "position startpos",
         "position fen r1bq1rk1/pp2bppp/2n1pn2/2pp4/3P1B2/2PBPN2/PP1N1PPP/R2QK2R w KQ - 2 8",
     };
-    std::vector<std::string> optsets = {"", "setoption name BufferTime value 1", "setoption name Ponder value true", "setoption name BufferTime value 10000", "setoption name MaxNPS value 1000"};
-    if (!thorough) optsets.resize(3);
+    std::vector<std::string> optsets = {"", "setoption name BufferTime value 1", "setoption name Ponder value true", "setoption name MaxNPS value 1000", "setoption name BufferTime value 10000", "setoption name MaxNPS value 20000"};
+    if (!thorough) optsets.resize(4);
     auto clockBudget = [](int time, int buf) { return (long long)(time - std::min(buf, time * 9 / 10)); };
     for (size_t oi = 0; oi < optsets.size(); oi++) {
         int buf = optsets[oi].find("BufferTime value 10000") != std::string::npos ? 10000 : optsets[oi].find("BufferTime value 1") != std::string::npos ? 1 : 1000;
